@@ -12,7 +12,8 @@ import "bytes"
 //
 // Frame contents and indices are concrete (index = position, as the writer numbers them; data
 // bytes pairwise distinct so that any misplaced, lost or repeated frame changes the result), the
-// recorded checksum is any 64-bit value. Variants: links of every list in reverse order; the
+// recorded checksum is any 64-bit value. Frames carry 1..2 bytes, or 3/32/61 bytes (up to 32 frames, payloads up to
+// ~1 KB: bytes.Buffer growth and re-allocation are executed). Variants: links of every list in reverse order; the
 // frames numbered against the link order (index n-1-k at position k).
 func VerifC14Layout() {
 	maxN := verifParam("N", 24)
@@ -22,6 +23,13 @@ func VerifC14Layout() {
 	c14Concrete = true
 	c14RevLinks = verifChoice("reverseLinks", 2) == 1
 	backwards := verifChoice("reverseIndices", 2) == 1
+	// frame sizes: 1..2 bytes, or (fan-outs 1, 4 and the largest only) 3 / 32 / 61 bytes so that the
+	// reassembly buffer outgrows its initial capacity several times
+	big := (f == 1 || f == 4 || f == maxF) && n <= verifParam("bigMaxN", 32) && verifChoice("bigFrames", verifParam("big", 2)) == 1
+	lens := func(k int) int { return 1 + k%2 }
+	if big {
+		lens = func(k int) int { return 3 + 29*(k%3) }
+	}
 
 	parent := make([]int, n)
 	hub := 0
@@ -42,10 +50,13 @@ func VerifC14Layout() {
 			rank[k] = k
 		}
 	}
-	p := c14BuildPayload(n, parent, rank, 0, func(k int) int { return 1 + k%2 })
+	p := c14BuildPayload(n, parent, rank, 0, lens)
 	for k := 0; k < n; k++ { // distinct contents for up to 60 frames
 		for j := range p.data[k] {
 			p.data[k][j] = byte(4*k + 2*j + 1)
+			if big {
+				p.data[k][j] = byte(67*k + 3*j + 1)
+			}
 			p.frames[k].Data[j] = p.data[k][j]
 		}
 	}
